@@ -426,5 +426,9 @@ def run(chk: Check) -> None:
                        "non-zero coefficients for 'a x^n + b x^n' and 'c t = r'"]
     for sc in sch:
         run_schema(chk, prog, S, sc)
+    # contracts of other parts of the library this check takes for granted (summaries, token model, reference grammar):
+    # the clauses that check the source against them, replayed under this property (props/contracts.py)
+    from .contracts import run_contracts
+    run_contracts(chk, prog, ['clone', 'factor', 'evaluate'])
     chk.exhaustive = True
     chk.max_undecided = 0
